@@ -152,10 +152,32 @@ TABLE = {
 }
 
 
+_PRINT = {
+    "mods": ["contracts.c12_print"], "keys": ["Expression.to_python"],
+    "proof_findings": {"Expression.to_python.unary-infix, parentheses requested => the whole text is wrapped and flagged (a unary minus used as base of ** or as receiver must stay grouped)": "contracts.c12_print:witness_unary_not_grouped"},
+    "explanation": ("hybrid: PROVED (pyvc, all expressions: any operator name, any number of operands, any operand texts) -- the grouping protocol of Expression.to_python, the printer of every operator / method / "
+                    "function-call expression: an infix expression prints EVERY operand with want_inline_parens=True, in order, joined by ' op ', and is itself wrapped in parentheses and flagged exactly "
+                    "when its parent asked for it; a unary operator and a method receiver omit the parentheses around their operand only when the operand is flagged as wrapped (or, for receivers, is a column "
+                    "reference); function form is op(arguments in order); is_in_parens is returned only with text of the form '(' + ... + ')'. One clause does NOT hold on the pinned tree and is a recorded "
+                    "finding with a native witness: a unary infix expression ignores want_inline_parens, so (-x) ** 2 prints as -(x) ** 2. NOT proved: that delimited text is read back to the same "
+                    "tree by the lark grammar and the tree walker, Value / ColumnReference / ListTerm / DictTerm printing, the pipeline-level printers, pickle: BOUNDED -- the enumerated expression "
+                    "trees / texts of this property's run-time contract check"),
+    "assumptions": ["recursive calls ai.to_python(want_inline_parens=b) return SOME PythonText that is a function of (ai, b) (nothing assumed about its text or flag)",
+                    "PythonText is an immutable pair (s, is_in_parens); str(p) is p.s (PythonText.__init__ / __str__ read, not verified)",
+                    "strings uninterpreted: cancellative +, sep.join(list) an uninterpreted function of separator and list",
+                    "method form with further arguments: that piece i of the joined list is the text of argument i+1 is not part of the obligation (slice + two comprehensions: z3 unknown)"],
+}
+TABLE["C12"] = _PRINT
+TABLE["C13"] = _PRINT
+
+
 def attach(rep, tier, seed):
     cfg = TABLE.get(rep.property_id)
     if not cfg or rep.obligations:
         return
+    if cfg.get("proof_findings"):
+        import os
+        os.environ["PYVC_RECORDED_FINDINGS"] = "\x1f".join(cfg["proof_findings"])
     run_proofs(rep, cfg["mods"], cfg["keys"], cfg.get("replays"))
     for (mods, keys) in cfg.get("groups_extra", []):  # separate registries: e.g. verified constructors vs their call-site abstraction
         rp = {}
@@ -168,4 +190,12 @@ def attach(rep, tier, seed):
     if cfg.get("explanation"):
         rep.explanation = cfg["explanation"]
     rep.assumptions += cfg.get("assumptions", [])
+    if cfg.get("proof_findings"):
+        import importlib
+        from pyvc.check import proof_findings
+        wits = {}
+        for name, ref in cfg["proof_findings"].items():
+            m, f_ = ref.split(":")
+            wits[name] = getattr(importlib.import_module(m), f_)
+        proof_findings(rep, wits)
     attach_bounded_witness(rep)
